@@ -244,6 +244,9 @@ func (ex *Exec) panicObligation(st *PState, c *Term, msg string) {
 		if ex.solver != nil && ex.cfg.Opts["eagerpanic"] != "0" && ex.initRunningAny() == false {
 			if r := ex.checkQuick([]*Term{cond}); r == "unsat" {
 				ex.eagerPanics++
+				if c.IsTrue() {
+					st.g = ex.ts.Bool(false) // the state itself is unreachable
+				}
 				return
 			}
 		}
